@@ -20,10 +20,6 @@ Record c04_case := {
   l_label_ok : bool             (* concept_lattice_label_func formats exactly these label sets *)
 }.
 
-Fixpoint insert_nat (x : nat) (l : list nat) : list nat :=
-  match l with [] => [x] | y :: l' => if Nat.leb x y then x :: l else y :: insert_nat x l' end.
-Definition sort_nat (l : list nat) : list nat := fold_right insert_nat [] l.
-
 Definition c04_same_as_model (c : c04_case) : bool :=
   let cs := l_concepts c in let n := length cs in
   let h := height (l_table c) in let w := width (l_table c) in
